@@ -482,7 +482,7 @@ def parse_raw_request(raw):
     return parts[0], parts[1], headers, body
 
 
-def e2e_leg(ctx, auth_name, connections):
+def e2e_leg(ctx, auth_name, connections, load_groups=()):
     """`connections`: list of {"initial_key": key|None, "requests": [{"method","target","headers","body",
     "chunked": sizes|None, "key_after": key|None|"same"}]}, key = {"guid": str, "key": hex str}.
     Each connection is one scenario of the shared runner: the REAL ProxyServer relays the requests of one
@@ -495,19 +495,41 @@ def e2e_leg(ctx, auth_name, connections):
         parameter received); failures carry the known-finding classes like the S leg's;
       * correspondence: Canon.relay -- the authorization value equals HMAC(key, Canon.as_sig_input of
         the request as received); without a key / exempt: forwarded as it came.
+    A request may carry "host": None (no Host header is written) and "version" ("HTTP/1.0").
+    `load_groups`: list of {"initial_key": key, "requests": [..]}: ONE scenario per group in which every request
+    travels on its own client connection, all connections run concurrently and meet at a barrier before
+    sending (a burst: the key-keeper actor's queue fills up), judged like any other request.
     Returns (disagreements, prop_failures, number of requests seen by the host)."""
     import e2e
     scs, sent = [], {}
     nid = 0
+
+    def raw_of(r, rid):
+        hs = list(r["headers"]) + [(ID_HEADER, rid)]
+        kw = {}
+        if "host" in r:
+            kw["host"] = r["host"]
+        if "version" in r:
+            kw["version"] = r["version"]
+        return hs, e2e.http_request(r["method"].decode("latin1"), r["target"].decode("latin1"),
+                                    [(n.decode("latin1"), v.decode("latin1")) for n, v in hs], r["body"], chunked=r.get("chunked"), **kw)
+    for gi, g in enumerate(load_groups):
+        cs = []
+        for r in g["requests"]:
+            nid += 1
+            rid = b"%d" % nid
+            hs, raw = raw_of(r, rid)
+            sent[rid] = {"key": g["initial_key"], "client_auth": [v for n, v in hs if n.lower() == auth_name], "sent": r, "conn": "load-%d" % gi}
+            cs.append(e2e.conn([e2e.req(raw, ops_before=[{"op": "barrier", "name": "burst", "n": len(g["requests"]), "timeout_ms": 60000}])],
+                               audit=e2e.audit(e2e.WIRESERVER, uid=0)))
+        scs.append(e2e.scenario("c04-load-%d" % gi, cs, key=g["initial_key"], concurrent=True, scenario_timeout_ms=120000))
     for ci, c in enumerate(connections):
         key = c["initial_key"]
         reqs = []
         for r in c["requests"]:
             nid += 1
             rid = b"%d" % nid
-            hs = list(r["headers"]) + [(ID_HEADER, rid)]
-            raw = e2e.http_request(r["method"].decode("latin1"), r["target"].decode("latin1"),
-                                   [(n.decode("latin1"), v.decode("latin1")) for n, v in hs], r["body"], chunked=r.get("chunked"))
+            hs, raw = raw_of(r, rid)
             sent[rid] = {"key": key, "client_auth": [v for n, v in hs if n.lower() == auth_name], "sent": r, "conn": ci}
             ka = r.get("key_after", "same")
             if ka == "same":
@@ -519,7 +541,7 @@ def e2e_leg(ctx, auth_name, connections):
                 reqs.append(e2e.req(raw, ops_after=[{"op": "update_key", "guid": ka["guid"], "key": ka["key"], "incarnation": nid}]))
                 key = ka
         scs.append(e2e.scenario("c04-%d" % ci, [e2e.conn(reqs, audit=e2e.audit(e2e.WIRESERVER, uid=0))], key=c["initial_key"]))
-    results = e2e.run_scenarios(ctx, scs)
+    results = e2e.run_scenarios(ctx, scs, timeout=900)
     calls, seen = [], []
     for r in results:
         for c in r.get("upstream", {}).get(e2e.WIRESERVER, []):
@@ -539,6 +561,7 @@ def e2e_leg(ctx, auth_name, connections):
     for (info, method, target, path, query, headers, body), res in zip(seen, coq_cases(ctx, "e2e", calls, per_expr=10)):
         key = info["key"]
         case = {"leg": "e2e", "method": method, "target": target, "headers_received": headers, "body_len": len(body),
+                "client_sent_host_header": info["sent"].get("host", "x") is not None, "client_version": info["sent"].get("version", "HTTP/1.1"),
                 "key_latched_when_relayed": key, "chunked_by_client": info["sent"].get("chunked"), "connection": info["conn"]}
         auth = [v for n, v in headers if n.lower() == auth_name]
         if key is None or (method, target.lower()) in DOCUMENTED_EXEMPT:
@@ -584,6 +607,12 @@ def gen_e2e_connections(rng, auth_name, n_single, n_multi):
         if n.lower() not in hop:
             conns.append({"initial_key": K1, "requests": [{"method": b"POST", "target": b"/machine?comp=x", "headers": [(n, vs[0])],
                                                            "body": b"abc", "chunked": None}]})
+    # clients that send no Host header (HTTP/1.0, hand-written HTTP/1.1): what the host receives must still be what was signed
+    for ver in ("HTTP/1.0", "HTTP/1.1"):
+        for m, t, body in ((b"GET", b"/machine?comp=goalstate", b""), (b"POST", b"/machine?comp=x", b"abc"), (b"PUT", b"/upload?a=1", b"xyz")):
+            conns.append({"initial_key": K1, "requests": [{"method": m, "target": t, "headers": [(b"x-ms-version", b"2012-11-30")], "body": body,
+                                                           "chunked": None, "host": None, "version": ver}]})
+            conns.append({"initial_key": K1, "requests": [{"method": m, "target": t, "headers": [], "body": body, "chunked": None, "version": ver}]})
     # near misses of the exemption list on the signed path (and the exempt requests themselves)
     for m, u in DOCUMENTED_EXEMPT:
         for uu in near_misses(u):
@@ -601,6 +630,13 @@ def gen_e2e_connections(rng, auth_name, n_single, n_multi):
         else:           # several requests under one key
             conns.append({"initial_key": K2, "requests": [one(False), one(rng.random() < 0.3), one(False)]})
     return conns
+
+
+def gen_e2e_load(rng, n):
+    K1 = {"guid": "9cf81e97-0316-4ad3-94a7-8ccbdee8ccbf", "key": "4A404E635266556A586E3272357538782F413F4428472B4B6250645367566B59"}
+    rs = [{"method": rng.choice([b"GET", b"POST"]), "target": b"/machine?comp=goalstate&i=%d" % i, "headers": [(b"x-ms-version", b"2012-11-30")],
+           "body": b"", "chunked": None} for i in range(n)]
+    return [{"initial_key": K1, "requests": rs}]
 
 
 # ------------------------------------------------------------------------------------------
@@ -734,7 +770,10 @@ def run(ctx):
         lines.append("B %s %s %s %s %s %s" % (hx(m), hx(url), hx(body), hx(key), hx(guid), pairs_fields(list(hs.items()))))
     nR = 25 if ctx.quick else 250
     lines.append("R %d" % nR)
-    out = [json.loads(l) for l in vplib.run_lines(bins["c04"], lines, timeout=900)]
+    nL = 300 if ctx.quick else 1000
+    lines.append("L %d" % nL)
+    # the agent's own logger prints warnings (e.g. "Connection failed") on stdout: result lines are the JSON objects
+    out = [json.loads(l) for l in vplib.run_lines(bins["c04"], lines, timeout=900) if l.startswith("{")]
     assert len(out) == len(lines), (len(out), len(lines))
     pos = 0
 
@@ -747,6 +786,7 @@ def run(ctx):
     oH, oHbad = take(len(H)), take(len(H_bad))
     oS, oB = take(len(S)), take(len(B))
     oR = take(1)[0]
+    oL = take(1)[0]
     ctx.log("implementation ran on %d script lines" % len(lines))
 
     disagreements, failures = [], []
@@ -973,7 +1013,9 @@ def run(ctx):
     if os.environ.get("VERIF_C04_E2E", "1") != "0":
         conns = gen_e2e_connections(rng, AUTH, *((40, 12) if ctx.quick else (400, 90)))
         try:
-            d2, f2, n2 = e2e_leg(ctx, AUTH, conns)
+            load = gen_e2e_load(rng, 250 if ctx.quick else 400)
+            d2, f2, n2 = e2e_leg(ctx, AUTH, conns, load)
+            count("E2E_burst_requests_sent", sum(len(g["requests"]) for g in load))
         except (vplib.Violation, KeyboardInterrupt):
             raise
         except Exception as ex:      # the shared runner itself failed: no verdict from this leg, say so
@@ -1000,12 +1042,15 @@ def run(ctx):
     # ---------------- R leg: the agent's own calls while the key keeper rotates the latched key ----------------
     # (pairing of key id and key value under rotation is C10's subject; here the host-side view: every request
     #  the mock host received must verify under the key NAMED in its authorization header)
-    if oR.get("panic"):
-        fail({"leg": "R", "driver_line": "R %d" % nR}, "panic in the agent's own host calls", oR)
-    else:
-        rot_keys = {g.encode(): strict_unhex(k.encode()) for g, k in oR["keys"]}
+    def judge_own(o, leg, line, at_least, what):
+        """requests of the agent's own calls as a raw-socket mock host received them: each must carry exactly one
+        `Azure-HMAC-SHA256 <guid of a latched key> <mac>` header whose MAC verifies under the key that guid names"""
+        if o.get("panic"):
+            fail({"leg": leg, "driver_line": line}, "panic in the agent's own host calls", o)
+            return
+        rot_keys = {g.encode(): strict_unhex(k.encode()) for g, k in o["keys"]}
         calls, live = [], []
-        for q in oR["requests"]:
+        for q in o["requests"]:
             msg = parse_raw_request(unhx(q["head"]) + b"\r\n\r\n" + unhx(q["body"]))
             if msg is None:
                 continue
@@ -1013,26 +1058,30 @@ def run(ctx):
             path, query = split_target(target)
             calls.append("c04_sig_case %s %s %s %s %s" % (cb(method), cb(rbody), cb(path), cob(query), cpairs(headers)))
             live.append((method, target, path, query, headers, rbody))
-        count("R_own_calls_received_by_mock_host", len(live))
-        count("R_key_rotations_during_the_calls", oR.get("rotations", 0))
-        if len(live) < nR:
-            disagree({"leg": "R", "driver_line": "R %d" % nR}, "at least %d requests at the mock host" % nR, len(live))
+        count(leg + "_own_calls_received_by_mock_host", len(live))
+        if len(live) < at_least:
+            disagree({"leg": leg, "driver_line": line}, "at least %d requests at the mock host" % at_least, len(live))
         guids_seen = set()
-        for (method, target, path, query, headers, rbody), res in zip(live, coq_cases(ctx, "rot", calls, per_expr=15)):
-            case = {"leg": "R", "method": method, "target": target, "headers_received": headers, "driver_line": "R %d" % nR}
+        for (method, target, path, query, headers, rbody), res in zip(live, coq_cases(ctx, "own" + leg, calls, per_expr=15)):
+            case = {"leg": leg, "method": method, "target": target, "headers_received": headers, "driver_line": line}
             auth = [v for n, v in headers if n.lower() == AUTH]
             parts = auth[0].split(b" ") if len(auth) == 1 else []
             if len(parts) != 3 or parts[0] != SCHEME or parts[1] not in rot_keys:
-                fail(case, "own call under a latched key does not carry exactly one `Azure-HMAC-SHA256 <guid of a latched key> <hex MAC>` header", {"authorization": auth})
+                fail(case, "own call %s does not carry exactly one `Azure-HMAC-SHA256 <guid of a latched key> <hex MAC>` header" % what, {"authorization": auth})
                 continue
             guids_seen.add(parts[1])
             kb = rot_keys[parts[1]]
             if parts[2] != hmac_hex(kb, spec_string_to_sign(AUTH, method, rbody, headers, path, query)):
-                fail(case, "own call: the MAC does not verify under the key NAMED in the authorization header (key id and key value of different keys)",
+                fail(case, "own call %s: the MAC does not verify under the key NAMED in the authorization header (key id and key value of different keys)" % what,
                      {"authorization": auth, "classes": [], "explained_by_model": False})
             elif parts[2] != hmac_hex(kb, tb(res[0])):
                 disagree(case, hmac_hex(kb, tb(res[0])), parts[2])
-        count("R_distinct_key_ids_seen", len(guids_seen))
+        count(leg + "_distinct_key_ids_seen", len(guids_seen))
+
+    judge_own(oR, "R", "R %d" % nR, nR, "under a rotating key")
+    count("R_key_rotations_during_the_calls", oR.get("rotations", 0) if isinstance(oR, dict) else 0)
+    # L leg: a burst of concurrent own calls with one key latched -- every one must be signed
+    judge_own(oL, "L", "L %d" % nL, nL // 2, "in a burst of concurrent calls with a key latched")
     ctx.log("R leg compared")
 
     # ---------------- known findings ----------------
@@ -1046,7 +1095,7 @@ def run(ctx):
         return None
 
     n_e2e = dist.get("E2E_requests_seen_by_mock_host", 0)
-    n_rot = dist.get("R_own_calls_received_by_mock_host", 0)
+    n_rot = dist.get("R_own_calls_received_by_mock_host", 0) + dist.get("L_own_calls_received_by_mock_host", 0)
     total = len(U) + len(H) + len(S) + len(B) + len(U_bad) + len(U_abs) + len(H_bad) + n_e2e + n_rot
     compared = dist.get("U_cases", 0) + dist.get("H_cases", 0) + dist.get("S_cases", 0) + dist.get("B_cases", 0) + n_e2e + n_rot
     distinct = len({(m, t) for m, t in U}) + len({tuple(h) for h in H if h}) + len({(m, t, tuple(h), b, k) for m, t, h, b, k in S}) + len(live)
